@@ -2,7 +2,7 @@
   PygModel.Wrap — the `wrapper` base class (src/pyg_base/_decorators.py:128-184): construction with
   unwrapping of same-type wrappers, signature forwarding, and the call behaviour of the decorators of C18
   (`try_value`, `try_back`, `kwargs_support`, `cache_func` on its first call, `loops` on a non-container
-  argument, `pd2np` on non-pandas arguments).
+  argument, `pd2np` on non-pandas arguments incl. its `_int2float`).
 
   A decorated function is a chain of wrapper instances around a plain function: `chain` lists
   (class, parameters) from the outside in, `base` names the plain function.  The memo field
@@ -102,6 +102,70 @@ def loopsCall (s : Sig) (c : Call) : Call :=
     | Option.none => c
   | [], [] => c
 
+/-! ### `pd2np` on non-pandas arguments: `_int2float` (_loop.py:277-293, 353-357)
+
+`pd2np.wrapped` with a first argument that is not a pandas object calls
+`self.function(*args_, **kwargs_, **excluded)` where `args_, kwargs_ = _int2float((args, kwargs_))`:
+every int ndarray among the arguments — at any depth of lists / tuples / dicts — is replaced by
+`a.astype(float)`; keywords named in `exc` are passed as they are.  Arrays are the driver's marker strings
+(`Val.hasArr`): `~arr:1,2` is an int array, `~arr:f:1,2` the float array with the same cells. -/
+
+/-- the marker of an int ndarray -/
+def isIntArr (s : String) : Bool := s.startsWith "~arr:" && !s.startsWith "~arr:f:"
+
+mutual
+  /-- `_int2float` (_loop.py:277-293) on non-pandas values -/
+  def int2float : Val → Val
+    | .cell (.str s) => if isIntArr s then .cell (.str ("~arr:f:" ++ (s.drop 5).toString)) else .cell (.str s)
+    | .cell c => .cell c
+    | .list xs => .list (int2floatList xs)
+    | .tuple xs => .tuple (int2floatList xs)
+    | .dict kvs => .dict (int2floatKVs kvs)
+  def int2floatList : List Val → List Val
+    | [] => []
+    | x :: xs => int2float x :: int2floatList xs
+  def int2floatKVs : List (String × Val) → List (String × Val)
+    | [] => []
+    | (k, v) :: kvs => (k, int2float v) :: int2floatKVs kvs
+end
+
+mutual
+  /-- an int ndarray somewhere in the value -/
+  def Val.hasIntArr : Val → Bool
+    | .cell (.str s) => isIntArr s
+    | .cell _ => false
+    | .list xs => hasIntArrList xs
+    | .tuple xs => hasIntArrList xs
+    | .dict kvs => hasIntArrKVs kvs
+  def hasIntArrList : List Val → Bool
+    | [] => false
+    | x :: xs => x.hasIntArr || hasIntArrList xs
+  def hasIntArrKVs : List (String × Val) → Bool
+    | [] => false
+    | (_, v) :: kvs => v.hasIntArr || hasIntArrKVs kvs
+end
+
+/-- an int ndarray among the arguments of a call (at any depth) -/
+def Call.hasIntArr (c : Call) : Bool := hasIntArrList c.args || hasIntArrKVs c.kw
+
+/-- `as_list(exc)` of a `pd2np` wrapper -/
+def excOf (p : PDict) : List String :=
+  match p.lookup "exc" with
+  | some (.list xs) => xs.filterMap fun | .cell (.str s) => some s | _ => Option.none
+  | some (.tuple xs) => xs.filterMap fun | .cell (.str s) => some s | _ => Option.none
+  | some (.cell (.str s)) => [s]
+  | _ => []
+
+/-- keyword arguments of the call `pd2np` forwards: excluded names untouched.  (The code passes the excluded
+keywords last; python dicts compare without order, the model keeps the order.) -/
+def int2floatKw (exc : List String) : PDict → PDict
+  | [] => []
+  | (k, v) :: kvs => (k, if exc.contains k then v else int2float v) :: int2floatKw exc kvs
+
+/-- the call `pd2np.wrapped` forwards when the first argument is not a pandas object -/
+def pd2npCall (exc : List String) (c : Call) : Call :=
+  { args := int2floatList c.args, kw := int2floatKw exc c.kw }
+
 /-- one call of a decorated function.  `s`, `body`: signature and body of the plain function. -/
 def evalChain (s : Sig) (body : PDict → Res Val) : List (Cls × PDict) → Call → Res Val
   | [], c => applyFn s body c
@@ -120,6 +184,6 @@ def evalChain (s : Sig) (body : PDict → Res Val) : List (Cls × PDict) → Cal
   | (.kwargsSupport, _) :: rest, c => evalChain s body rest (kwFilter s c)
   | (.cache, _) :: rest, c => evalChain s body rest c      -- first call on an empty cache
   | (.loops, _) :: rest, c => evalChain s body rest (loopsCall s c)      -- first argument is not a container
-  | (.pd2np, _) :: rest, c => evalChain s body rest c      -- no pandas argument
+  | (.pd2np, p) :: rest, c => evalChain s body rest (pd2npCall (excOf p) c)      -- no pandas argument
 
 end Pyg
